@@ -117,6 +117,8 @@ pub struct Mem {
     pub detached: Vec<(u64, Vec<u8>)>,
     /// private messages sent since the last write (a crash now rolls the sender's ratchet back)
     pub unwritten_sends: u32,
+    /// the epochs in which private messages were sent since the last write (a crash rolls those ratchets back)
+    pub unwritten_epochs: BTreeSet<u64>,
     /// next generation of this member's own ratchets: (epoch, application?) -> generation
     pub sent_gen: BTreeMap<(u64, bool), u32>,
     /// receiver side: next expected generation per (sender, epoch, application?)
@@ -147,6 +149,7 @@ impl Default for Mem {
             join_epoch: 0,
             detached: vec![],
             unwritten_sends: 0,
+            unwritten_epochs: Default::default(),
             sent_gen: Default::default(),
             ratchet_pos: Default::default(),
             ret_disk: Default::default(),
@@ -773,11 +776,16 @@ impl World {
 
     /// generate a key package for party q; returns (message bytes, reference)
     pub fn gen_key_package(&mut self, q: usize) -> VResult<Option<Vec<u8>>> {
+        let now = self.now();
+        self.gen_key_package_at(q, now)
+    }
+
+    /// key package whose lifetime starts at `now` (the simulated clock, or a shifted time for the C10 templates)
+    pub fn gen_key_package_at(&mut self, q: usize, now: MlsTime) -> VResult<Option<Vec<u8>>> {
         // the key package draws from q's crypto PRNG outside any mirrored call: a twin of q (in another group)
         // can no longer follow byte for byte
         self.ext.twins.retain(|(p, _), _| *p != q);
         let client = self.parties[q].client.clone();
-        let now = self.now();
         let prop = self.cfg.property.clone();
         let r = guarded(&prop, "generate_key_package_message", || {
             client.generate_key_package_message(Default::default(), Default::default(), Some(now))
@@ -872,10 +880,17 @@ impl World {
             .and_then(|m| m.iter().find(|(q, _)| **q != p).map(|(_, i)| *i));
         let mut tmpl_kp = None;
         for (t, q) in &spec.templates {
-            if matches!(t, 5 | 8) && *q < self.parties.len() {
+            if matches!(t, 5 | 8 | 10 | 11) && *q < self.parties.len() {
                 let st = self.mem(*q, g).status.clone();
                 if matches!(st, Status::Never) {
-                    tmpl_kp = self.gen_key_package(*q)?;
+                    // 10: a key package that expired a second ago; 11: one that becomes valid in an hour
+                    let year = 365 * 24 * 3600u64;
+                    let at = match t {
+                        10 => MlsTime::from(self.clock.saturating_sub(year + 1)),
+                        11 => MlsTime::from(self.clock + 3600),
+                        _ => self.now(),
+                    };
+                    tmpl_kp = self.gen_key_package_at(*q, at)?;
                 }
             }
         }
@@ -942,7 +957,7 @@ impl World {
                             .add_external_psk(mls_rs::psk::ExternalPskId::new(vec![b'k', 0]))?;
                     }
                     4 => b = b.add_external_psk(mls_rs::psk::ExternalPskId::new(vec![b'k', 99]))?,
-                    5 | 8 => {
+                    5 | 8 | 10 | 11 => {
                         if let Some(kp) = &tmpl_kp {
                             b = b.add_member(MlsMessage::from_bytes(kp)?)?;
                             if *t == 5 {
@@ -1066,6 +1081,7 @@ impl World {
                 }
                 if private {
                     self.parties[p].mems[g].unwritten_sends += 1;
+                    self.parties[p].mems[g].unwritten_epochs.insert(epoch);
                 }
                 crate::oracles::after_commit_built(self, p, g, id, pre, &out)?;
                 Ok(true)
@@ -1262,6 +1278,7 @@ impl World {
                 self.parties[p].mems[g].cached.insert(id);
                 if private {
                     self.parties[p].mems[g].unwritten_sends += 1;
+                    self.parties[p].mems[g].unwritten_epochs.insert(epoch);
                 }
                 // fan out to every other current member
                 let members: Vec<usize> = self.groups[g]
@@ -1485,6 +1502,8 @@ impl World {
                 // key packages and joins: that one stays the key pair the client was built with)
                 crate::oracles::after_commit_processed(self, p, g, cid, pre, &desc)?;
                 if reinit {
+                    // the re-init commit ends epoch `epoch` like any other commit: its record is kept
+                    self.mem(p, g).ret_pending.insert(epoch);
                     self.groups[g].reinit_at = Some(epoch);
                     crate::oracles::after_reinit(self, p, g, cid)?;
                     return Ok(true);
@@ -1895,6 +1914,7 @@ impl World {
                 self.msgs.insert(id, msg);
                 self.groups[g].apps.push(id);
                 self.parties[p].mems[g].unwritten_sends += 1;
+                self.parties[p].mems[g].unwritten_epochs.insert(epoch);
                 let members: Vec<usize> = self.groups[g]
                     .members
                     .get(&epoch)
@@ -1941,13 +1961,34 @@ impl World {
             }
         }
         let pre = crate::oracles::before_op(self, p, g, "write")?;
+        // C07: the key-package store fails once when the joiner's first write wants to delete the used key package;
+        // the retried write must succeed and must still delete it
+        let inject = self.cfg.fault("S-KP-DELETE-ERR")
+            && self.parties[p].mems[g].join_kp.is_some()
+            && mix(&[self.seed, self.step_no as u64, 0x6b70]) % 2 == 0;
+        if inject {
+            self.parties[p].faults.lock().unwrap().fail_what = Some("kp.delete");
+        }
         let res = crate::oracles::lib_call(self, p, Some(g), "write_to_storage", |w| {
             let mut group = w.parties[p].mems[g].group.take().unwrap();
             let res = guarded(&prop, "write_to_storage", || group.write_to_storage());
             w.parties[p].mems[g].group = Some(group);
             res
         });
-        let res = res?;
+        let mut res = res?;
+        if inject {
+            let fired = self.parties[p].faults.lock().unwrap().fail_what.take().is_none();
+            if fired && res.is_err() {
+                self.stats.fault("S-KP-DELETE-ERR");
+                self.ev(format!("write P{p} g{g}: key-package delete failed once, retrying"));
+                res = crate::oracles::lib_call(self, p, Some(g), "write_to_storage", |w| {
+                    let mut group = w.parties[p].mems[g].group.take().unwrap();
+                    let res = guarded(&prop, "write_to_storage", || group.write_to_storage());
+                    w.parties[p].mems[g].group = Some(group);
+                    res
+                })?;
+            }
+        }
         self.stats.op("write");
         match res {
             Ok(()) => {
@@ -1961,6 +2002,7 @@ impl World {
                     ratchet_pos: m.ratchet_pos.clone(),
                 };
                 m.unwritten_sends = 0;
+                m.unwritten_epochs.clear();
                 if !m.ret_pending.is_empty() || true {
                     let pend = std::mem::take(&mut m.ret_pending);
                     m.ret_disk.extend(pend);
@@ -1989,7 +2031,7 @@ impl World {
         }
     }
 
-    fn do_crash(&mut self, p: usize) -> VResult<bool> {
+    pub fn do_crash(&mut self, p: usize) -> VResult<bool> {
         if p >= self.parties.len() || self.parties[p].crashed {
             return Ok(false);
         }
@@ -1998,7 +2040,12 @@ impl World {
         for (gi, m) in self.parties[p].mems.iter_mut().enumerate() {
             if m.group.is_some() && matches!(m.status, Status::Member | Status::Stuck(_)) {
                 if m.unwritten_sends > 0 {
+                    // the ratchets of every epoch it sent in since the last write go back to their stored position
+                    // (the member may have moved on to a later epoch in memory meanwhile)
                     rolled.push((p, gi, m.group.as_ref().unwrap().current_epoch()));
+                    for e in std::mem::take(&mut m.unwritten_epochs) {
+                        rolled.push((p, gi, e));
+                    }
                     m.unwritten_sends = 0;
                 }
                 m.group = None;
@@ -2020,7 +2067,7 @@ impl World {
         Ok(true)
     }
 
-    fn do_reload(&mut self, p: usize, g: usize) -> VResult<bool> {
+    pub fn do_reload(&mut self, p: usize, g: usize) -> VResult<bool> {
         if p >= self.parties.len() || g >= self.groups.len() {
             return Ok(false);
         }
